@@ -394,6 +394,52 @@ func SchBuild(proto schema.TypedPrototype, level string, route string, v *Val) (
 	}, route, v)
 }
 
+// SchBuildBytes: the registered strict dag-cbor decoder driving the builder directly (streaming, the way
+// the library is used); canonicalised like SchBuild.
+func SchBuildBytes(newBuilder func() datamodel.NodeBuilder, bs []byte) string {
+	var nb datamodel.NodeBuilder
+	err := Safely(func() error {
+		nb = newBuilder()
+		return dagcbor.Decode(nb, bytes.NewReader(bs))
+	})
+	if err != nil {
+		if os.Getenv("SCH_DEBUG") != "" {
+			fmt.Fprintln(os.Stderr, "SCH_DEBUG:", err)
+		}
+		if IsPanic(err) {
+			return "panic"
+		}
+		return "err"
+	}
+	var n datamodel.Node
+	if err := Safely(func() error { n = nb.Build(); return nil }); err != nil {
+		return "panic"
+	}
+	return "ok|" + SchViews(n)
+}
+
+// SchEncodings renders a tree as dag-cbor bytes in several ways: "enc" the registered encoder over a
+// basicnode (canonical order; only for trees without repeated keys), "raw" the order and repeats as given,
+// "mut" near-valid departures (longer heads, tags, indefinite lengths, narrow floats, wrong counts, ...),
+// "flip" one or two bytes of the raw form changed.
+func (r *Rng) SchEncodings(v *Val) map[string][]byte {
+	out := map[string][]byte{"raw": SchCbor(v)}
+	if !v.HasDupKeys() {
+		if n, err := BuildBasic(v); err == nil {
+			var buf bytes.Buffer
+			if Safely(func() error { return dagcbor.Encode(n, &buf) }) == nil {
+				out["enc"] = buf.Bytes()
+			}
+		}
+	}
+	m := &CborMut{R: r, Rate: 6}
+	if Safely(func() error { m.Emit(v); return nil }) == nil {
+		out["mut"] = m.Buf
+	}
+	out["flip"] = r.ByteMutate(append([]byte{}, out["raw"]...), 1+r.Intn(2))
+	return out
+}
+
 // SchBuildWith: the same over any way of obtaining a builder (generated code has separate prototypes
 // per level).
 func SchBuildWith(newBuilder func() datamodel.NodeBuilder, route string, v *Val) (string, datamodel.Node) {
